@@ -561,8 +561,11 @@ Section QRun.
   Proof.
     intros prot t c h t' c' h' st O E [Hsk [lb H]]. unfold micro in E.
     destruct (t_stack t) as [|k rest] eqn:Hstk.
-    { destruct c; inversion E; subst; simpl; try rewrite Hstk;
-        (split; [constructor | exists lb; eapply HQ_ext; [| | |exact H]; reflexivity]). }
+    { destruct c; try (inversion E; subst; rewrite Hstk; split; [constructor | exists lb; exact H]);
+        (match type of E with context [finish ?tt ?cc ?hh] =>
+           destruct (finish_props tt cc hh) as [F1 [_ [_ [_ [_ [_ [F2 [F3 F4]]]]]]]];
+           destruct (finish tt cc hh) as [t2 h2]; simpl in *; inversion E; subst end;
+         rewrite F1; split; [constructor | exists lb; eapply HQ_ext; [| | |exact H]; assumption]). }
     inversion Hsk as [|? ? Hk Hr]; subst. destruct k as [f0|q f]; [contradiction|]. cbn [kframe kset] in E.
     assert (Hsame : RQ (KQ q f :: rest) O h) by (split; [exact Hsk | exists lb; exact H]).
     assert (Htop : In (f_no f) (map snd (kq (KQ q f :: rest) ++ O))) by (simpl; left; reflexivity).
@@ -743,21 +746,22 @@ Section QSys.
     rewrite Hts in Hf, Hp. eapply SQ_task; eauto.
   Qed.
 
-  Lemma step_q : forall top prot fuel s e, SQ s -> SQ (step defs mode top prot fuel s e).
+  Lemma step_q : forall top prot preds fuel s e, SQ s -> SQ (step defs mode top prot preds fuel s e).
   Proof.
-    intros top prot fuel s e HS. unfold step.
+    intros top prot preds fuel s e HS. unfold step.
     destruct (s_oof s); [exact HS|].
     destruct HS as [Hf [lb H]].
-    destruct (mem e top && negb (mem e (s_started s))).
+    destruct (can_start top preds s e).
     - apply deliver_all_q.
-      set (t0 := mkT e (e_model (edef defs e)) (mem e prot) [] None).
-      set (h0 := mkH _ _ _ (h_reg (s_sh s) ++ _) _ _ _ _).
+      set (t0 := mkT e _ _ [] None _).
+      set (h0 := match inherited_ctx preds s e with Some _ => s_sh s | None => _ end).
       set (s0 := mkS (s_tasks s ++ [t0]) h0 (e :: s_started s) false).
       assert (Hts0 : s_tasks s0 = s_tasks s ++ t0 :: []) by reflexivity.
       assert (Hf0 : Forall (fun t => SK (t_stack t)) (s_tasks s0)).
       { simpl. apply Forall_app. split; [exact Hf | constructor; [constructor | constructor]]. }
       assert (H0 : RQ [] (all_kq (s_tasks s) ++ all_kq []) h0).
-      { split; [constructor|]. exists lb. simpl. rewrite app_nil_r. eapply HQ_ext; [| | |exact H]; reflexivity. }
+      { split; [constructor|]. exists lb. simpl. rewrite app_nil_r.
+        subst h0. destruct (inherited_ctx preds s e); [exact H|]. eapply HQ_ext; [| | |exact H]; reflexivity. }
       pose proof (call_trigger_q defs mode Hmode e h0 [] _ H0) as Hc.
       destruct (call_trigger defs mode e h0) as [r h1|x h1|k h1];
         eapply (run_at_q fuel s0 (s_tasks s) t0 []); eauto.
@@ -769,9 +773,9 @@ Section QSys.
       rewrite Hts in Hf, H. eapply SQ_task; eauto.
   Qed.
 
-  Lemma schedule_q : forall top prot fuel sched s, SQ s -> SQ (run_schedule defs mode top prot fuel s sched).
+  Lemma schedule_q : forall top prot preds fuel sched s, SQ s -> SQ (run_schedule defs mode top prot preds fuel s sched).
   Proof.
-    intros top prot fuel sched. unfold run_schedule.
+    intros top prot preds fuel sched. unfold run_schedule.
     induction sched as [|e r IH]; intros s H; simpl; [exact H|]. apply IH. apply step_q. exact H.
   Qed.
 
@@ -792,24 +796,24 @@ Section QSys.
     intros k q Hq. apply init_queues_empty in Hq. subst q. repeat split; constructor.
   Qed.
 
-  Lemma all_schedules_serial : forall top prot fuel inits sched,
-    serial_log defs mode (h_log (s_sh (run_schedule defs mode top prot fuel (init_state mode inits) sched))).
+  Lemma all_schedules_serial : forall top prot preds fuel inits sched,
+    serial_log defs mode (h_log (s_sh (run_schedule defs mode top prot preds fuel (init_state mode inits) sched))).
   Proof.
-    intros. destruct (schedule_q top prot fuel sched _ (init_q inits)) as [_ [lb [[op [Hs _]] _]]].
+    intros. destruct (schedule_q top prot preds fuel sched _ (init_q inits)) as [_ [lb [[op [Hs _]] _]]].
     unfold serial_log. rewrite Hs. discriminate.
   Qed.
 
   (* while a body of its queue is in progress, an arriving trigger runs nothing: it is appended and returns True
      (or, for the queue of a removed model, raises KeyError) *)
-  Lemma all_schedules_busy : forall top prot fuel inits sched e op lb,
-    let s := run_schedule defs mode top prot fuel (init_state mode inits) sched in
+  Lemma all_schedules_busy : forall top prot preds fuel inits sched e op lb,
+    let s := run_schedule defs mode top prot preds fuel (init_state mode inits) sched in
     AsyncConc.gscan defs mode gstate0 (h_log (s_sh s)) = Some (op, lb) -> In (ekey e) (map fst op) ->
     (exists h', call_trigger defs mode e (s_sh s) = CalledRet (RBool true) h' /\
                 h_log h' = h_log (s_sh s) /\ h_mstate h' = h_mstate (s_sh s) /\ h_reg h' = h_reg (s_sh s)) \/
     call_trigger defs mode e (s_sh s) = CalledExn X_KEY (s_sh s).
   Proof.
-    intros top prot fuel inits sched e op lb s Hs Hin.
-    destruct (schedule_q top prot fuel sched _ (init_q inits)) as [_ [lb' [[op' [Hs' Hop]] [_ [_ [_ I3]]]]]].
+    intros top prot preds fuel inits sched e op lb s Hs Hin.
+    destruct (schedule_q top prot preds fuel sched _ (init_q inits)) as [_ [lb' [[op' [Hs' Hop]] [_ [_ [_ I3]]]]]].
     fold s in Hs', I3, Hop. rewrite Hs in Hs'. inversion Hs'; subst op' lb'.
     rewrite (call_trigger_queued defs mode Hmode).
     destruct (qlookup (h_queues (s_sh s)) (ekey e)) as [[|x q]|] eqn:Hq.
@@ -821,41 +825,41 @@ Section QSys.
 End QSys.
 
 (* ------------------------------------------------------------------ packaged statements for Props/C08.v *)
-Lemma shared_serial_fifo : forall defs top prot fuel inits sched l1 n e l2 n' e' l3,
-  h_log (s_sh (run_schedule defs QShared top prot fuel (init_state QShared inits) sched)) =
+Lemma shared_serial_fifo : forall defs top prot preds fuel inits sched l1 n e l2 n' e' l3,
+  h_log (s_sh (run_schedule defs QShared top prot preds fuel (init_state QShared inits) sched)) =
     l1 ++ GBegin n e :: l2 ++ GBegin n' e' :: l3 ->
   (exists e2 r, In (GEnd n e2 r) l2) /\ n < n'.
 Proof.
-  intros defs top prot fuel inits sched l1 n e l2 n' e' l3 Hl.
+  intros defs top prot preds fuel inits sched l1 n e l2 n' e' l3 Hl.
   assert (Hm : QShared <> QNone) by discriminate.
-  pose proof (all_schedules_serial defs QShared Hm top prot fuel inits sched) as Hs. rewrite Hl in Hs.
+  pose proof (all_schedules_serial defs QShared Hm top prot preds fuel inits sched) as Hs. rewrite Hl in Hs.
   split.
   - destruct (scan_no_overlap defs QShared _ _ _ _ _ _ _ Hs eq_refl) as [e2 [r [H1 _]]]. exists e2, r. exact H1.
   - apply (scan_fifo defs QShared _ _ _ _ _ _ _ Hs eq_refl).
 Qed.
 
-Lemma model_serial_fifo : forall defs top prot fuel inits sched l1 n e l2 n' e' l3,
-  h_log (s_sh (run_schedule defs QPerModel top prot fuel (init_state QPerModel inits) sched)) =
+Lemma model_serial_fifo : forall defs top prot preds fuel inits sched l1 n e l2 n' e' l3,
+  h_log (s_sh (run_schedule defs QPerModel top prot preds fuel (init_state QPerModel inits) sched)) =
     l1 ++ GBegin n e :: l2 ++ GBegin n' e' :: l3 ->
   e_model (edef defs e) = e_model (edef defs e') ->
   (exists e2 r, In (GEnd n e2 r) l2 /\ e_model (edef defs e2) = e_model (edef defs e)) /\ n < n'.
 Proof.
-  intros defs top prot fuel inits sched l1 n e l2 n' e' l3 Hl Hk.
+  intros defs top prot preds fuel inits sched l1 n e l2 n' e' l3 Hl Hk.
   assert (Hm : QPerModel <> QNone) by discriminate.
-  pose proof (all_schedules_serial defs QPerModel Hm top prot fuel inits sched) as Hs. rewrite Hl in Hs.
+  pose proof (all_schedules_serial defs QPerModel Hm top prot preds fuel inits sched) as Hs. rewrite Hl in Hs.
   split.
   - apply (scan_no_overlap defs QPerModel _ _ _ _ _ _ _ Hs Hk).
   - apply (scan_fifo defs QPerModel _ _ _ _ _ _ _ Hs Hk).
 Qed.
 
-Lemma items_inside_body : forall defs mode top prot fuel inits sched l1 it l2,
+Lemma items_inside_body : forall defs mode top prot preds fuel inits sched l1 it l2,
   mode <> QNone ->
-  h_log (s_sh (run_schedule defs mode top prot fuel (init_state mode inits) sched)) = l1 ++ it :: l2 ->
+  h_log (s_sh (run_schedule defs mode top prot preds fuel (init_state mode inits) sched)) = l1 ++ it :: l2 ->
   (forall n e, it <> GBegin n e) ->
   exists la e lc, l1 = la ++ GBegin (item_no it) e :: lc /\
                   (forall e' r, In (GEnd (item_no it) e' r) lc -> ekey defs mode e' <> ekey defs mode e).
 Proof.
-  intros defs mode top prot fuel inits sched l1 it l2 Hm Hl Hnb.
-  pose proof (all_schedules_serial defs mode Hm top prot fuel inits sched) as Hs. rewrite Hl in Hs.
+  intros defs mode top prot preds fuel inits sched l1 it l2 Hm Hl Hnb.
+  pose proof (all_schedules_serial defs mode Hm top prot preds fuel inits sched) as Hs. rewrite Hl in Hs.
   apply (scan_inside defs mode _ _ _ Hs Hnb).
 Qed.
